@@ -82,7 +82,7 @@ class Recorder:
             self._orig["subc"], self._orig["suba"], self._orig["subr"]
 
 
-def threaded_solve(dcop, algo_def, cg, dist, infinity=10000, timeout=20, switch=1e-5, replication=None, watchdog=45):
+def threaded_solve(dcop, algo_def, cg, dist, infinity=10000, timeout=20, switch=1e-5, replication=None, watchdog=45, scenario=None):
     """-> (orchestrator, Recorder, error text); the whole run is abandoned (error text "hung") after `watchdog` seconds"""
     from pydcop.infrastructure.run import run_local_thread_dcop
     rec = Recorder()
@@ -96,7 +96,7 @@ def threaded_solve(dcop, algo_def, cg, dist, infinity=10000, timeout=20, switch=
             box["orch"] = orch = run_local_thread_dcop(algo_def, cg, dist, dcop, infinity, replication=replication)
             try:
                 orch.deploy_computations()
-                orch.run(timeout=timeout)
+                orch.run(scenario=scenario, timeout=timeout)
             except Exception as e:
                 box["err"] = "orchestrator raised %s: %s" % (type(e).__name__, str(e)[:100])
                 orch.stop_agents(5)
@@ -104,12 +104,17 @@ def threaded_solve(dcop, algo_def, cg, dist, infinity=10000, timeout=20, switch=
         except Exception as e:
             box["err"] = "setup raised %s: %s" % (type(e).__name__, str(e)[:100])
     t = threading.Thread(target=body, daemon=True)
+    import os
+    from .common import scratch
+    cwd = os.getcwd()
+    os.chdir(str(scratch()))          # scenario events make the orchestrator write yaml files in the current directory
     try:
         t.start()
         t.join(watchdog)
         if t.is_alive():
             box["err"] = "hung: the run did not return within %d s" % watchdog
     finally:
+        os.chdir(cwd)
         sys.setswitchinterval(old)
         rec.uninstall()
     return box["orch"], rec, box["err"]
